@@ -275,15 +275,46 @@ def _with_numbers(x):
     return x
 
 
+def nil_fact_case():
+    """a zero-argument fact whose name is the atom '[]' is a fact like any other: asserted, enumerated, retracted by that name"""
+    from yldprolog import engine as E
+    yp = E.YP()
+    probs = []
+    yp.assertz(yp.ATOM_NIL)
+    yp.assertz(yp.atom('flag'))
+    for name in ('[]', 'flag'):
+        n = sum(1 for _ in yp.query(name, []))
+        if n != 1:
+            probs.append('%s/0 has %d answers after assertz, expected 1' % (name, n))
+        try:
+            r = sum(1 for _ in yp.retract(yp.atom(name)))
+        except Exception as e:       # noqa: an exception is a failure of this case
+            r = 'raised %s: %s' % (type(e).__name__, str(e)[:60])
+        if r != 1:
+            probs.append('retract(%s) succeeds %s time(s), expected 1' % (name, r))
+        n = sum(1 for _ in yp.query(name, []))
+        if n != 0:
+            probs.append('%s/0 has %d answers after retract, expected 0' % (name, n))
+    return not probs, '; '.join(probs) or 'ok'
+
+
 def main():
     if sys.argv[1] == 'replay':
         sc = json.load(open(sys.argv[2]))
         sc = sc.get('scenario', sc)
+        if sc.get('kind') == 'nil_fact':
+            ok, detail = nil_fact_case()
+            print(json.dumps(dict(ok=ok, detail=detail)))
+            sys.exit(0 if ok else 1)
         ok, detail = check(sc)
         print(json.dumps(dict(ok=ok, detail=detail)))
         sys.exit(0 if ok else 1)
     seed, count = int(sys.argv[2]), int(sys.argv[3])
     fails, nontriv, n, samples = [], set(), 0, []
+    ok, detail = nil_fact_case()
+    n += 1
+    if not ok:
+        fails.append(dict(scenario=dict(kind='nil_fact'), detail=detail))
     for sc in scenarios(seed, count):
         ok, detail = check(sc)
         n += 1
